@@ -32,6 +32,7 @@ func checkC17(c *Ctx) {
 		"math.Round(f*k) recovers the integer exactly for |error| = 2^-53 * 4.3e9 << 0.5 (uint32 Hz, 0..100 %); encoding/json prints float64 with the shortest representation that round-trips",
 		"aliasing between distinct SSA base objects is not modelled by the flow engine (effects engine E4 covers aliasing)",
 	}
+	flowSelfTest(c)
 	c17Rounded(c)
 	c17Pairs(c)
 	c17Tags(c)
